@@ -38,7 +38,7 @@ def build_plan(tier, nruns=None):
             plan.append(("samekind", t.kind, False))
         for t in tps:
             plan.append(("firstuse", t.kind, True))
-        nrand = 2200 if nruns is None else max(0, nruns - len(plan))
+        nrand = 1500 if nruns is None else max(0, nruns - len(plan))
     else:
         for rep in range(3):
             for t in tps:
@@ -286,7 +286,8 @@ def main():
     print(json.dumps({"type": "hello", "variant": variant,
                       "hashseed": os.environ.get("PYTHONHASHSEED"),
                       "optimize": sys.flags.optimize,
-                      "snapshot_data": server.snapshot_digest("data"),
+                      "snapshot_data": server.snapshot_digest("public"),
+                      "snapshot_keys": server.base["public"][0],
                       "snapshot_full": server.snapshot_digest("full"),
                       "modules": C.pyecc_modules(),
                       "start_s": round(time.monotonic() - t_start, 2)}))
